@@ -111,3 +111,27 @@ def protocol(tier: str, prop: str) -> list[dict]:
         dict(d, kind="box", dims=[2, 2], obs_kind="dict", stack=[FO, TO, TL, CR]),
     ]
     return base + extra
+
+
+def mask_query(tier: str, prop: str) -> list[dict]:
+    d = dict(S=5, obs_kind="box")
+    base = [
+        dict(d, policy="table_ac", kind="discrete", dims=[4], K=32, L=12),
+        dict(d, policy="table_ac", kind="multidiscrete", dims=[2, 3], K=32, L=10),
+        dict(d, policy="table_ac", kind="multibinary", dims=[3], K=32, L=10),
+        dict(d, policy="mlp_ac", kind="discrete", dims=[3], K=32, L=10),
+        dict(d, policy="mlp_ac", kind="multidiscrete", dims=[2, 2], K=32, L=8),
+        dict(d, policy="mlp_ac", kind="multibinary", dims=[2], K=32, L=8),
+        dict(d, policy="qtable", kind="discrete", dims=[4], K=4096, L=3, epsilon=0.1),
+        dict(d, policy="qtable", kind="discrete", dims=[3], K=4096, L=3, epsilon=1.0),
+        dict(d, policy="qtable", kind="discrete", dims=[3], K=256, L=6, epsilon=0.0),
+        dict(d, policy="mlp_q", kind="discrete", dims=[3], K=4096, L=3, epsilon=0.1),
+        dict(d, policy="mlp_q", kind="discrete", dims=[4], K=4096, L=3, epsilon=0.5, obs_kind="dict"),
+    ]
+    if tier == "quick":
+        return base
+    return base + [
+        dict(d, policy="table_ac", kind="discrete", dims=[2], S=3, K=64, L=16),
+        dict(d, policy="mlp_ac", kind="discrete", dims=[4], K=32, L=10, obs_kind="tuple"),
+        dict(d, policy="mlp_q", kind="discrete", dims=[2], K=4096, L=3, epsilon=0.02),
+    ]
